@@ -96,14 +96,14 @@ def strategy_(draw, tier):
     paths = [l.split("\t")[5] for l in lines[:4]]
     return {"gfa": gfa, "gaf": lines, "fasta": base["fasta"], "cuts": cuts, "gfa_cuts": gcuts, "nodes": qnodes,
             "region": "%s:%d-%d" % (contig, a, b), "tsv": "\n".join(tsv) + "\n", "paths": paths,
-            "pysam_writer": big}
+            "pysam_writer": big, "bgzf_name": draw(st.sampled_from(["in.gaf.gz", "in.gaf.gz", "in.gaf.bgz", "in.gaf"]))}
 
 
 def strategy(tier):
     return strategy_(tier)
 
 
-def write_variant(d, case, gaf_kind, gfa_kind):
+def write_variant(d, case, gaf_kind, gfa_kind, bgzf_name=None):
     os.makedirs(d, exist_ok=True)
     data = "".join(l + "\n" for l in case["gaf"]).encode()
     table = None
@@ -112,7 +112,7 @@ def write_variant(d, case, gaf_kind, gfa_kind):
         with open(gaf, "wb") as f:
             f.write(data)
     else:
-        gaf = d + "/in.gaf.gz"
+        gaf = d + "/" + (bgzf_name or case.get("bgzf_name", "in.gaf.gz"))
         if case.get("pysam_writer"):
             from pysam import libcbgzf
 
@@ -181,7 +181,9 @@ def run_all(d, case, gaf_kind, gfa_kind):
             with open(stable_path, "wb") as f:
                 f.write(sdata)
         else:
-            stable_path = d + "/stable.gaf.gz"
+            stable_path = d + "/stable" + os.path.splitext(gaf)[1].replace(".gaf", "") if gaf.endswith((".gz", ".bgz")) else d + "/stable.gaf"
+            if stable_path == d + "/stable":
+                stable_path = d + "/stable.gaf.gz"
             bgzf.write_bgzf(stable_path, sdata, case["cuts"])
         res2, l2 = idx.run_view(d, stable_path, gfa, d + "/v_fmt2.txt", fmt="unstable")
         put("view --format unstable", res2, l2)
@@ -261,7 +263,7 @@ def run_case(case):
         # plain file and its BGZF copy side by side, indexed with the default index name, queried without -i
         sd = d + "/same"
         gaf_p, gfa_p, _ = write_variant(sd, case, "plain", "plain")
-        gaf_z, _, _ = write_variant(sd, case, "bgzf", "plain")
+        gaf_z, _, _ = write_variant(sd, case, "bgzf", "plain", bgzf_name="in.gaf.gz")
         from gaftools.cli import index as _index
 
         r1 = core.call(_index.run, gaf_p, gfa_p)
@@ -304,4 +306,5 @@ def run_case(case):
         cl.append("graph_without_final_newline")
     if any(l.endswith(" ") for l in case["gaf"]):
         cl.append("line_with_trailing_blank")
+    cl.append("bgzf_name:" + case.get("bgzf_name", "in.gaf.gz"))
     return core.Result(after and straddle, cl)
